@@ -257,8 +257,9 @@ var specC34 = vstat.Spec[c34Case]{
 	Rule: "7 stream handlers (echo, forwarding, relay, API accept, srpc server, pubsub controller, solicitation controller), each built from a generated configuration that passes its own Validate/constructor " +
 		"(protocol ids from a pool of 8 incl. empty/default/prefix look-alikes, local peer filter, remote/local peer lists over 3 identities), and an incoming HandleMountedStream(protocol, local, remote) incl. empty values; " +
 		"oracle: per-handler predicate written from the configuration's documented meaning vs resolvers returned by HandleDirective on a fake directive instance; non-trivial = changing one field of the incoming triple flips the expected answer",
-	Gen:   genC34,
-	Check: checkC34,
+	Gen:      genC34,
+	Check:    checkC34,
+	Inflight: true,
 }
 
 func TestC34(t *testing.T)       { vstat.Check(t, specC34) }
